@@ -370,12 +370,109 @@ for _m in (0, 1, 2):
     globals()[_nm] = _f
     CONDITIONS.append({"fn": _nm, "quick": 150, "thorough": 400, "sel_only": True})
 
+# ---- T4 deeply nested expressions: the expression parsers recurse per nesting level and are not covered by
+# block_nesting_limit; stack exhaustion while parsing must surface as a LiquidError, never as RecursionError ----------
+import sys  # noqa: E402
+
+from liquid.exceptions import LiquidError  # noqa: E402
+
+_DEPTHS = (50, 400, 700, 900, 1000, 1200, 1500, 3000)
+_NFAM = 11
+
+
+class _XEnv(Environment):
+    logical_not_operator = True
+    logical_parentheses = True
+    ternary_expressions = True
+
+
+_XENVS = {}
+
+
+def _xenv(mode):
+    if mode not in _XENVS:
+        _XENVS[mode] = _XEnv(extra=True, tolerance=(Mode.STRICT, Mode.WARN, Mode.LAX)[mode])
+    return _XENVS[mode]
+
+
+def deep_source(fam, d):
+    if fam == 0:
+        return "{{ " + "a[" * d + "a" + "]" * d + " }}"
+    if fam == 1:
+        return "{{ " + "a[" * d + "a }}"
+    if fam == 2:
+        return "{{ " + "(1.." * d + "2" + ")" * d + " }}"
+    if fam == 3:
+        return "{% for i in " + "(1.." * d + "2 %}{% endfor %}"
+    if fam == 4:
+        return "{% if " + "(" * d + "a" + ")" * d + " %}x{% endif %}"
+    if fam == 5:
+        return "{% if " + "not " * d + "a %}x{% endif %}"
+    if fam == 6:
+        return "{{ x | append: " + "a[" * d + "a" + "]" * d + " }}"
+    if fam == 7:
+        return "{% assign r = " + "(1.." * d + "2" + ")" * d + " %}"
+    if fam == 8:
+        return "{% if " + "a and " * d + "a %}x{% endif %}"
+    if fam == 9:
+        return "{% if " + "a or not " * d + "a %}x{% endif %}"
+    if fam == 10:
+        return "{% render 'p', v: " + "a[" * d + "a" + "]" * d + " %}"
+    return "{% case " + "a[" * d + "a" + "]" * d + " %}{% when 1 %}{% endcase %}"
+
+
+def deep_outcome(fam, d, mode):
+    """'ok' / 'liquid' / the name of any other exception class that reached the caller of from_string or render.
+    Run with the interpreter's default recursion limit (CrossHair raises it for its own frames)."""
+    import warnings
+    env = _xenv(mode)
+    src = deep_source(fam, d)
+    old_limit = sys.getrecursionlimit()
+    old = signal.signal(signal.SIGALRM, _alarm)
+    signal.alarm(10)
+    try:
+        sys.setrecursionlimit(1000 + len(__import__("inspect").stack(0)))
+        with warnings.catch_warnings():
+            warnings.simplefilter("ignore")
+            try:
+                t = env.from_string(src)
+                t.render(a=1, x="s")
+            except LiquidError:
+                return "liquid"
+            except _Hang:
+                return "hang"
+            except Exception as e:
+                return type(e).__name__
+        return "ok"
+    finally:
+        signal.alarm(0)
+        signal.signal(signal.SIGALRM, old)
+        sys.setrecursionlimit(old_limit)
+
+
+def c09_deep_expression(fam: int, di: int, mode: int) -> bool:
+    """
+    pre: 0 <= fam <= 11 and 0 <= di <= 7 and 0 <= mode <= 2
+    post: _
+    """
+    if excluded("c09_deep_expression", locals()):
+        return True
+    fam, di, mode = cint(fam, 0, _NFAM), cint(di, 0, 7), cint(mode, 0, 2)
+    return finish(untraced(lambda: deep_outcome(fam, _DEPTHS[di], mode) in ("ok", "liquid")))
+
+
+DETAIL = globals().get("DETAIL", {})
+DETAIL["c09_deep_expression"] = lambda fam, di, mode: {"source_head": deep_source(fam, 3), "depth": _DEPTHS[di], "mode": mode,
+                                                      "outcome": deep_outcome(fam, _DEPTHS[di], mode)}
+CONDITIONS.append({"fn": "c09_deep_expression", "quick": 60, "thorough": 120, "sel_only": True})
+
 ASSUMPTIONS = [
     "recursion families are the concrete templates of harness/c09.py; the recursive call sits inside d nested {% if %} blocks; context_depth_limit is symbolic in 0..6 (T1)",
     "T2 is a measured cost model: frame depth is measured with sys._getframe at a probe tag for 9 (levels, depth) points, fitted exactly to a + b*d + levels*(c + e*d) and cross-checked on 2 more points; z3 decides whether the default limits admit a depth beyond the interpreter's recursion limit, and the witness is replayed on the real code",
+    "T4 runs with sys.setrecursionlimit(1000 + current depth), the interpreter default seen from the caller of from_string",
     "a render that ends in any LiquidError (ContextDepthError, or one raised on stack exhaustion) counts as cut off; RecursionError reaching the caller is the violation",
 ]
-OUTSIDE = ["termination of parsing for sources outside the generated family of unterminated / unbalanced openings (T3 is solver-steered enumeration)", "'finishes promptly' (no time bound is decided)", "recursion through custom tags or drops", "context_depth_limit above 6 in T1"]
+OUTSIDE = ["expression nesting deeper than 3000 levels and nesting shapes other than the 12 families of deep_source (T4)", "termination of parsing for sources outside the generated family of unterminated / unbalanced openings (T3 is solver-steered enumeration)", "'finishes promptly' (no time bound is decided)", "recursion through custom tags or drops", "context_depth_limit above 6 in T1"]
 
 
 def selftest():
